@@ -171,6 +171,8 @@ def _run_structural(ctx):
     rule_close_writes(ctx, r3, ("spec hashes",))
     r3.check(roots_ok, tcon + "::roots", "every requested endpoint is visited", "touch_workflow does not visit every requested endpoint", tw.where)
     rule_cone_selection(ctx, r3)
+    from .shared import rule_sibling_call_agreement
+    rule_sibling_call_agreement(ctx, r3)      # "so `gwf status` reports it completed": status reads the store touch wrote
     rule_exit_persists(ctx, r3, ("spec hashes",))
     rule_close_writes(ctx, r3, ("spec hashes",))
     tc = idx.func("gwf.plugins.touch:touch")
